@@ -84,7 +84,24 @@ pub fn world() -> Hierarchy<Arc<Relation>> {
 
 /// a CTE named like the last component of a schema-qualified table: `FROM sa.tt` designates the table (exact path),
 /// `FROM tt` the CTE
+/// a CTE named exactly like a registered table shadows it: the reference denotes the CTE's column, never the table's
+fn gen_scope_cte_shadow(rng: &mut Rng) -> J {
+    let tj = rng.below(3) as usize;                         // the table whose name the CTE takes
+    let ti = (tj + 1 + rng.below(2) as usize) % 3;          // the CTE reads another table
+    let ci2 = rng.below(3) as usize; let c2 = TABLES[ti].1[ci2];
+    let ci = rng.below(3) as usize; let col = TABLES[tj].1[ci];   // the CTE's column carries the name of a column of the shadowed table
+    let name = TABLES[tj].0;
+    let sql = match rng.below(3) {
+        0 => format!("WITH {name} AS (SELECT {c2} AS {col} FROM {}) SELECT {col} AS r FROM {name}", TABLES[ti].0),
+        1 => format!("WITH {name} AS (SELECT {c2} AS {col} FROM {}) SELECT {name}.{col} AS r FROM {name}", TABLES[ti].0),
+        _ => format!("WITH {name} AS (SELECT {c2} AS {col} FROM {}) SELECT r FROM (SELECT {col} AS r FROM {name}) AS q", TABLES[ti].0),
+    };
+    let (lo, hi) = col_range(ti, ci2);
+    json!({"sql": sql, "expect": "ok", "place": "select", "range": [lo, hi], "ref": col})
+}
+
 fn gen_scope_cte(rng: &mut Rng) -> J {
+    if rng.chance(1, 3) { return gen_scope_cte_shadow(rng); }
     let qi = 3 + rng.below(2) as usize;                     // sa.tt or sb.tt
     let ci = rng.below(3) as usize; let col = TABLES[qi].1[ci];
     let ti = rng.below(3) as usize; let ci2 = rng.below(3) as usize; let c2 = TABLES[ti].1[ci2];
